@@ -70,6 +70,9 @@ EXIT_PATHS = [
     ([['G', [_p('s')], [_p('m', r='X')], [_p('t', r='X')]]], {}),
     ([['T', 't', [_p('u', r='U'), _p('v')]], _p('w')], {}),
     ([['BX', 'bx', []]], {}),
+    ([_p('a', m='unset', mdim=1), _p('b')], {}),
+    ([_p('a', m='unset', mdim=1)], {'allow_unset': True}),
+    ([_p('a')], {'tdiag': 'fail_then_ok'}),
 ]
 HISTORIES = ['single', 'twice', 'thrice', 'overlap_phase', 'overlap_thread',
              'after_abort', 'late_registration']
